@@ -1,6 +1,9 @@
 import OVM.Iter.Lemmas
 import OVM.Kernel.Query
 import OVM.Base.ListLemmas
+import OVM.Refine.CircTable
+import OVM.Refine.CircTetHex
+import OVM.Refine.EntityBack
 /-
   C05 — iterators and circulators enumerate exactly the live / incident entities.
   Two machines (OVM/Iter/Circ.lean) model every iterator class: the entity iterator with its
@@ -14,7 +17,11 @@ import OVM.Base.ListLemmas
   * the lists built by `std::sort`+`std::unique` are strictly ascending, duplicate-free and
     have the same members as the collected relation.
   Which list each class builds (Kernel/Query.lean) is tied to the C++ by the correspondence run
-  over every class × centre × max_laps 1..3; that it equals the incident set is C01.
+  over every class × centre × max_laps 1..3; that it equals the incident set on every reachable
+  mesh state is the second half of this file (`circulator_enumerates_incident_set`,
+  `entity_iterators_on_reachable_states`, `boundary_iterators_on_reachable_states`, …; lemmas in
+  OVM/Refine/CircReach.lean, CircTable.lean, CircTetHex.lean, EntityBack.lean on top of C01's
+  `Global.GInv`; the meshes of the tetrahedral kernel: Props/C05Tet.lean).
   Known finding (F10): `operator--` never sets `valid` back, so stepping back from the end state
   gives the right handle but an invalid iterator — proved as `prev_from_end_stays_invalid`.
 -/
@@ -149,5 +156,339 @@ example : visit [4, 7, 9] 2 7 (start [4, 7, 9]) = [4, 7, 9, 4, 7, 9] ∧
 
 example : enumFrom [true, false, true, false, false, true] 6 0 = [1, 3, 4] := by
   rw [entity_iteration]; decide
+
+open OVM.Kernel
+open OVM.Kernel.Global (GInv CircClass EKind ginv_reachable class_facts class_disabled entity_lists boundary_lists halfLive
+  historyOKB historyOK_of_B FaceCyc deleted_centre_nothing_incident)
+
+/-! ## On reachable mesh states: the list each circulator runs over IS the incident set
+
+Everything above is about the two machines on an arbitrary list.  Which list each of the 26 `TopologyKernel`
+circulator classes builds is `CircClass.list` (OVM/Refine/CircTable.lean — the assignment of `Judge.circList`, compared
+with the C++ on every run for every class × centre × max_laps 1..3); that this list is the incident set of the centre on
+EVERY state reachable from the empty mesh by valid calls (`Global.HistoryOK`, the reachability notion of C01: whole
+vocabulary, all four deletion modes, all eight bottom-up configurations, deferred-deleted entities anywhere) is
+OVM/Refine/CircReach.lean on top of `Global.GInv`.  `CircClass.spec` is the brute-force scan over the stored definitions
+of the not-deleted entities (OVM/Spec/Incidence.lean); `CircClass.isSet` marks the classes whose relation is a set, the
+others enumerate with the multiplicity stated at `CircClass.isSet` (and then `Perm` says the multiplicities agree). -/
+
+/-- the machine on one list: what the `valid()` loop dereferences, where the end is, the back step -/
+theorem machine_on_list (L : List Nat) (m : Nat) (hm : 1 ≤ m) :
+    (L ≠ [] → (start L).valid = true ∧ (start L).cur = L.head? ∧
+      visit L m (L.length * m + 1) (start L) = rep m L ∧
+      nextN L m (L.length * m) (start L) = endOf m (start L) ∧
+      ∀ i (l : Nat), i < L.length → (next L m (pos L i l true)).valid = true →
+        prev L (next L m (pos L i l true)) = pos L i l true) ∧
+    (L = [] → (start L).valid = false) := by
+  refine ⟨fun hL => ⟨(nonempty_is_valid L hL).1, (nonempty_is_valid L hL).2, visits_list_max_laps_times L m hL hm,
+    end_is_begin_advanced L m hL hm, fun i l hi hv => backward_undoes_forward L m i l hi hv⟩, ?_⟩
+  rintro rfl; rfl
+
+/-- **every circulator class, every reachable state, every centre with `CircClass.centreOK`, every `max_laps ≥ 1`.**
+    (`centreOK`: a not-deleted centre in range — `Global.centreOK_of_live` — and, for the classes that read a bottom-up
+    cache, even any handle in range.)  With the needed incidence kinds enabled the constructor's list `L` is a
+    rearrangement of the brute-force incident list (same members, same multiplicities), duplicate-free for the set
+    relations, and names only live entities; if
+    the centre has something incident, the circulator starts valid, `for (; c.valid(); ++c)` dereferences exactly `L`
+    repeated `max_laps` times, begin advanced `|L|·max_laps` times IS the end circulator, and a back step undoes a
+    forward step; if nothing is incident it is invalid from the start.  With a needed kind disabled the circulator is
+    invalid from the start.
+    (FaceHalfEdgeIter / FaceEdgeIter on a face with NO halfedges: the model says "invalid", the C++ constructor reads
+    `halfedges_[0]` — finding F6; such a centre is outside C05's quantifier "with at least one sub-entity".) -/
+theorem circulator_enumerates_incident_set (cls : CircClass) (ops : List Op) (h : Global.HistoryOK {} ops)
+    (x m : Nat) (hm : 1 ≤ m) (hx : cls.centreOK (run {} ops) x = true) :
+    let k := run {} ops
+    let L := cls.list k x
+    (cls.needs k = true →
+      L.Perm (cls.spec k x) ∧ (∀ y, y ∈ L ↔ y ∈ cls.spec k x) ∧ (cls.isSet = true → L.Nodup) ∧
+      (∀ y ∈ L, cls.target.live k y = true) ∧
+      (cls.spec k x ≠ [] →
+        (start L).valid = true ∧ (start L).cur = L.head? ∧
+        visit L m (L.length * m + 1) (start L) = rep m L ∧
+        nextN L m (L.length * m) (start L) = endOf m (start L) ∧
+        ∀ i (l : Nat), i < L.length → (next L m (pos L i l true)).valid = true →
+          prev L (next L m (pos L i l true)) = pos L i l true) ∧
+      (cls.spec k x = [] → (start L).valid = false)) ∧
+    (cls.needs k = false → L = [] ∧ (start L).valid = false) := by
+  intro k L
+  have hi : GInv k := ginv_reachable ops h
+  constructor
+  · intro hn
+    obtain ⟨hp, hs, hl⟩ := class_facts cls hi hx hn
+    refine ⟨hp, fun y => hp.mem_iff, hs, hl, ?_, ?_⟩
+    · intro hne
+      have hL : L ≠ [] := fun e => hne (by have := hp; rw [show cls.list k x = L from rfl, e] at this; exact this.nil_eq.symm)
+      exact (machine_on_list L m hm).1 hL
+    · intro he
+      have hL : L = [] := by have := hp; rw [he] at this; exact this.eq_nil
+      exact (machine_on_list L m hm).2 hL
+  · intro hn
+    have hL : L = [] := class_disabled cls k x hn
+    exact ⟨hL, (machine_on_list L m hm).2 hL⟩
+
+/-- **a deferred-deleted centre has nothing incident**: on every reachable state, a vertex / edge / halfedge that is
+    flagged deleted but not yet collected yields an immediately-invalid circulator in every vertex-, edge- and
+    halfedge-centred class (whatever incidence kinds are enabled) -/
+theorem deleted_centre_immediately_invalid (cls : CircClass) (ops : List Op) (h : Global.HistoryOK {} ops) (x : Nat)
+    (hb : cls.bottomUp = true) (hcc : cls ≠ .cc) (hx : cls.centre.inRange (run {} ops) x = true)
+    (hd : cls.centre.live (run {} ops) x = false) :
+    cls.list (run {} ops) x = [] ∧ (start (cls.list (run {} ops) x)).valid = false := by
+  have e := deleted_centre_nothing_incident cls (ginv_reachable ops h) hb hcc hx hd
+  exact ⟨e, by rw [e]; rfl⟩
+
+/-- vertex → cells against the scan `sVC` ("a live halfface of the cell TOUCHES the vertex") needs the one hypothesis
+    beyond reachability that C01 needs for it: every live face is cyclically connected (`Global.FaceCyc`, what a
+    checked `add_face` / `add_face(vertices)` establishes; witness without it at `C01Reach.vertex_cells_exact`).
+    Unconditionally (`circulator_enumerates_incident_set`, class `vc`) the list is `sVCout`: the live cells with a
+    live halfface one of whose halfedges STARTS at the vertex. -/
+theorem vertex_cell_circulator_partial (ops : List Op) (h : Global.HistoryOK {} ops) (hy : FaceCyc (run {} ops))
+    (v : Nat) (hv : (run {} ops).liveV v = true) (hn : CircClass.vc.needs (run {} ops) = true) :
+    (run {} ops).qVC v = (run {} ops).sVC v := by
+  have hi : GInv (run {} ops) := ginv_reachable ops h
+  simp only [CircClass.needs, Bool.and_eq_true] at hn
+  have hlt : v < (run {} ops).nV := by unfold Kernel.liveV at hv; simp at hv; exact hv.1
+  exact (Global.circ_vc hi.wf hi.one hi.closed hn.1.1 hn.1.2 hn.2 hlt).2.1 hy
+
+/-- membership of the top-down views in terms that do not mention the stored order: face/halfface → edges is
+    `faceHasEdge`, cell → faces is `cellHasFace`, and under `FaceCyc` face/halfface → vertices is `faceTouchesV` -/
+theorem top_down_members (ops : List Op) (h : Global.HistoryOK {} ops) :
+    let k := run {} ops
+    (∀ hf, k.liveF (eOf hf) = true → (∀ e, e ∈ k.qHFE hf ↔ k.faceHasEdge (eOf hf) e = true) ∧
+        (FaceCyc k → ∀ v, v ∈ k.qHFV hf ↔ k.faceTouchesV (eOf hf) v = true)) ∧
+    (∀ f, k.liveF f = true → (∀ e, e ∈ k.qFE f ↔ k.faceHasEdge f e = true) ∧
+        (FaceCyc k → ∀ v, v ∈ k.qFV f ↔ k.faceTouchesV f v = true)) ∧
+    (∀ c, k.liveC c = true → (∀ f, f ∈ k.qCF c ↔ k.cellHasFace c f = true) ∧
+        (FaceCyc k → ∀ v, v ∈ k.qCV c ↔ (k.liveV v = true ∧ ∃ hf ∈ k.cellAt c, k.faceTouchesV (eOf hf) v = true))) := by
+  intro k
+  have hi : GInv k := ginv_reachable ops h
+  refine ⟨fun hf hl => ?_, fun f hl => ?_, fun c hl => ?_⟩
+  · obtain ⟨_, ⟨_, _, b⟩, ⟨_, _, c⟩⟩ := Global.circ_hf hi.wf hi.closed hl; exact ⟨c, b⟩
+  · obtain ⟨_, ⟨_, _, b⟩, ⟨_, _, c⟩⟩ := Global.circ_f hi.wf hi.closed hl; exact ⟨c, b⟩
+  · exact ⟨(Global.circ_c_views hi.wf hi.one hi.closed hl).2.1.2.2, (Global.circ_cv hi.wf hi.closed hl).2.2.2⟩
+
+/-- **the six entity iterators on every reachable state**: run on the state's own deletion-flag arrays (one flag per
+    slot: `LenInv`), `vertices()`, `edges()`, `faces()`, `cells()` visit exactly the not-deleted slots, each once,
+    ascending; `halfedges()` / `halffaces()` (whose `is_deleted` looks at the edge / face) visit both halves of
+    every not-deleted edge / face, ascending -/
+theorem entity_iterators_on_reachable_states (ops : List Op) (h : Global.HistoryOK {} ops) :
+    let k := run {} ops
+    (enumFrom k.vDel k.nV 0 = k.liveVerts ∧ enumFrom k.eDel k.nE 0 = k.liveEdges ∧
+     enumFrom k.fDel k.nF 0 = k.liveFaces ∧ enumFrom k.cDel k.nC 0 = k.liveCells ∧
+     enumFromP (halfLive k.eDel) k.nHE 0 = k.liveEdges.flatMap (fun e => [2 * e, 2 * e + 1]) ∧
+     enumFromP (halfLive k.fDel) k.nHF 0 = k.liveFaces.flatMap (fun e => [2 * e, 2 * e + 1])) ∧
+    (k.vDel.length = k.nV ∧ k.eDel.length = k.nE ∧ k.fDel.length = k.nF ∧ k.cDel.length = k.nC) ∧
+    (∀ v, v ∈ k.liveVerts ↔ (v < k.nV ∧ k.vDeleted v = false)) ∧ k.liveVerts.Pairwise (· < ·) ∧
+    (k.liveEdges.flatMap (fun e => [2 * e, 2 * e + 1])).Pairwise (· < ·) := by
+  intro k
+  have hi : GInv k := ginv_reachable ops h
+  obtain ⟨a, b⟩ := entity_lists hi.wf.len
+  refine ⟨a, b, ?_, Global.liveVerts_pairwise k, Global.pairwise_halves _ (Global.liveEdges_pairwise k)⟩
+  intro v; unfold liveVerts; simp
+
+/-- **entity iterators, backward stepping** (`operator--`: `--i; while (i >= 0 && is_deleted(i)) --i;`,
+    OVM/Refine/EntityBack.lean `skipBwdP`): from any valid position `a`, `--(++it)` is `a` again — for every flag
+    array, every count, also when `++` ran off the end; and `--end` is the last not-deleted slot (none: below 0) -/
+theorem entity_backward_undoes_forward (del : List Bool) (n a : Nat) (ha : liveFlag del a = true) :
+    skipBwdP (liveFlag del) (skipFwd del n (a + 1)) = some a ∧
+    (∀ b, skipBwdP (liveFlag del) n = some b → b < n ∧ liveFlag del b = true ∧ ∀ j, b < j → j < n → liveFlag del j = false) :=
+  ⟨entity_back_undoes_forward _ n a ha, (entity_prev_of_end _ n).1⟩
+
+/-- **the six boundary iterators on every reachable state** (BoundaryItemIter: the entity iterator that also skips
+    items with `!is_boundary`): with the incidence kinds `has_incidences()` asks for they visit exactly the not-deleted
+    items that are boundary by the brute-force definitions of OVM/Spec/Incidence.lean, each once, ascending
+    (with a kind missing the constructor comes back invalid: `Kernel.qBIV` … `qBIC`, `else []`) -/
+theorem boundary_iterators_on_reachable_states (ops : List Op) (h : Global.HistoryOK {} ops) :
+    let k := run {} ops
+    (k.vBU = true → k.eBU = true → k.fBU = true →
+      enumFromP (fun v => liveFlag k.vDel v && k.qBoundaryV v) k.nV 0 = k.liveVerts.filter k.sBoundaryV) ∧
+    (k.eBU = true → k.fBU = true →
+      enumFromP (fun h => halfLive k.eDel h && k.qBoundaryHE h) k.nHE 0 =
+        (k.liveEdges.flatMap (fun e => [2 * e, 2 * e + 1])).filter k.sBoundaryHE) ∧
+    (k.eBU = true → k.fBU = true →
+      enumFromP (fun e => liveFlag k.eDel e && k.qBoundaryE e) k.nE 0 = k.liveEdges.filter k.sBoundaryE) ∧
+    (k.fBU = true →
+      enumFromP (fun h => halfLive k.fDel h && k.qBoundaryHF h) k.nHF 0 =
+        (k.liveFaces.flatMap (fun e => [2 * e, 2 * e + 1])).filter k.sBoundaryHF) ∧
+    (k.fBU = true →
+      enumFromP (fun f => liveFlag k.fDel f && k.qBoundaryF f) k.nF 0 = k.liveFaces.filter k.sBoundaryF) ∧
+    (k.fBU = true →
+      enumFromP (fun c => liveFlag k.cDel c && k.qBoundaryC c) k.nC 0 = k.liveCells.filter k.sBoundaryC) :=
+  boundary_lists (ginv_reachable ops h).wf
+
+/-- **TetVertexIter** (`tv_iter`): its list is `get_cell_vertices(ch)`.  On a state with the invariant, the face kind
+    enabled (the C++ reads `incident_cell`), a live cell that is a topological tetrahedron (`IsTet`): four pairwise
+    distinct entries, exactly the vertices of the cell, visited `max_laps` times (`Kernel.tvIter`, the sequence the
+    driver records), end = begin advanced.  `_partial`: stated for a state satisfying `GInv` and a cell satisfying
+    `IsTet` — what Props/C15 (`shape_reachable`, `tetShape_reachable`, `tetShape_of_construction`) delivers along the
+    histories of the tetrahedral kernel — not re-quantified over those histories here; the ORDER of the four
+    vertices is Props/C15 `get_cell_vertices_cell`. -/
+theorem tet_vertex_circulator_partial (k : Kernel) (hi : GInv k) (hb : k.fBU = true) (c : Nat) (hl : k.liveC c = true)
+    (ht : IsTet k c) (m : Nat) (hm : 1 ≤ m) :
+    let L := k.getCellVertices c
+    L.length = 4 ∧ L.Nodup ∧ (∀ v, v ∈ L ↔ v ∈ k.cellVertSet c) ∧ (start L).valid = true ∧
+    visit L m (L.length * m + 1) (start L) = k.tvIter c m ∧
+    nextN L m (L.length * m) (start L) = endOf m (start L) := by
+  intro L
+  obtain ⟨h4, hn, hmem, hrep⟩ := Global.tet_vertex_list hi hb hl ht
+  have hL : L ≠ [] := by intro e; rw [show k.getCellVertices c = L from rfl, e] at h4; cases h4
+  obtain ⟨hv, _, hvis, hend, _⟩ := (machine_on_list L m hm).1 hL
+  exact ⟨h4, hn, hmem, hv, by rw [hvis, hrep m], hend⟩
+
+/-- **CellSheetCellIter** (`csc_iter`) of the hexahedral kernel: on a state with the invariant, a live cell and a
+    direction `< 6`, with the face kind enabled the list is the brute-force sheet neighbourhood `sSheetCells` (cells
+    across the halffaces stored at the positions of the two other axes), duplicate-free, live cells only, and the
+    machine visits it `max_laps` times; with the face kind off the circulator is invalid from the start.
+    `_partial`: for a `GInv` state (Props/C16 `shape_reachable` delivers it along hexahedral-kernel histories).
+    HexVertexIter: Props/C16 `hex_vertices_pattern` (OVM/Hex/VerticesPattern.lean `Frame.hexVertices_eq`).
+    HalfFaceSheetHalfFaceIter: only judged per state and decided on the two-cube mesh (Props/C16); no theorem. -/
+theorem cell_sheet_circulator_partial (k : Kernel) (hi : GInv k) (c dir : Nat) (hl : k.liveC c = true) (hd : dir < 6)
+    (m : Nat) (hm : 1 ≤ m) :
+    let L := k.cellSheetCells c dir
+    (k.fBU = true → L = k.sSheetCells c dir ∧ L.Nodup ∧ (∀ x ∈ L, k.liveC x = true) ∧
+      (L ≠ [] → (start L).valid = true ∧ visit L m (L.length * m + 1) (start L) = rep m L ∧
+        nextN L m (L.length * m) (start L) = endOf m (start L))) ∧
+    (L = [] → (start L).valid = false) ∧ (k.fBU = false → L = []) := by
+  intro L
+  refine ⟨fun hb => ?_, (machine_on_list L m hm).2, fun hb => Global.sheet_cells_disabled k c dir hb⟩
+  obtain ⟨e, n, l⟩ := Global.sheet_cells_exact hi hb hl hd
+  refine ⟨e, n, l, fun hL => ?_⟩
+  obtain ⟨hv, _, hvis, hend, _⟩ := (machine_on_list L m hm).1 hL
+  exact ⟨hv, hvis, hend⟩
+
+/-! ### non-vacuity: two glued tetrahedra, a deferred deletion pending -/
+
+/-- tetrahedra `0123` and `0124` glued along face 0 (built through `add_face(vertices)` and checked `add_cell`), an
+    isolated vertex 5, then a DEFERRED `delete_face(6)`: face 6 and with it cell 1 are flagged, nothing is collected -/
+def gluedOps : List Op :=
+  [.addNVertices 6, .addFaceV [0,1,2], .addFaceV [0,3,1], .addFaceV [1,3,2], .addFaceV [0,2,3],
+   .addCell true [0,2,4,6],
+   .addFaceV [0,1,4], .addFaceV [1,2,4], .addFaceV [2,0,4], .addCell true [1,8,10,12],
+   .deleteFace 6]
+
+set_option maxRecDepth 1000000 in
+/-- the history is valid at every call, the deletion is pending, face 6 and cell 1 carry flags -/
+example : Global.HistoryOK {} gluedOps ∧ (run {} gluedOps).needsGC = true ∧
+    (run {} gluedOps).fDel = [false, false, false, false, false, false, true] ∧ (run {} gluedOps).cDel = [false, true] :=
+  ⟨historyOK_of_B {} _ (by decide), by decide, by decide, by decide⟩
+
+set_option maxRecDepth 1000000 in
+/-- vertex → faces at vertex 0 with two laps: the theorem applies (live centre, kinds enabled, non-empty incident set)
+    and the loop dereferences `[0,1,3,4]` twice — face 6, which also touches vertex 0, is flagged and not visited -/
+example :
+    let k := run {} gluedOps
+    let L := CircClass.vf.list k 0
+    L = [0, 1, 3, 4] ∧ k.faceTouchesV 6 0 = true ∧
+    visit L 2 (L.length * 2 + 1) (start L) = [0, 1, 3, 4, 0, 1, 3, 4] ∧
+    nextN L 2 (L.length * 2) (start L) = endOf 2 (start L) := by
+  intro k L
+  have hL : L = [0, 1, 3, 4] := by decide
+  have hs : CircClass.vf.spec k 0 ≠ [] := by decide
+  have T := (circulator_enumerates_incident_set .vf gluedOps (historyOK_of_B {} _ (by decide)) 0 2 (by decide)
+    (by decide)).1 (by decide)
+  obtain ⟨_, _, hv, he, _⟩ := T.2.2.2.2.1 hs
+  refine ⟨hL, by decide, ?_, he⟩
+  rw [show visit L 2 (L.length * 2 + 1) (start L) = rep 2 L from hv, hL]; decide
+
+set_option maxRecDepth 1000000 in
+/-- the other clauses are met by the same state: cell → cells at cell 0 is EMPTY (its only neighbour is flagged) and the
+    circulator is invalid from the start; so is every vertex circulator at the isolated vertex 5; halfedge →
+    halffaces at halfedge 0 lists three halffaces in fan order (a rearrangement of the ascending scan);
+    BoundaryHalfFaceHalfFace at halfface 0 lists halfface 1 three times (multiplicity); with the vertex kind
+    switched off VertexOHalfEdgeIter is invalid from the start -/
+example :
+    let k := run {} gluedOps
+    CircClass.cc.spec k 0 = [] ∧ (start (CircClass.cc.list k 0)).valid = false ∧ k.sCC 1 = [0] ∧
+    (start (CircClass.voh.list k 5)).valid = false ∧
+    CircClass.hehf.list k 0 = [8, 0, 3] ∧ CircClass.hehf.spec k 0 = [0, 3, 8] ∧
+    CircClass.bhfhf.list k 0 = [1, 9, 1, 11, 1] ∧
+    (start (CircClass.voh.list (run {} (gluedOps ++ [.enableBU 0 false])) 0)).valid = false := by
+  intro k
+  have H : Global.HistoryOK {} gluedOps := historyOK_of_B {} _ (by decide)
+  have T := (circulator_enumerates_incident_set .cc gluedOps H 0 1 (by decide) (by decide)).1 (by decide)
+  have hs : CircClass.cc.spec k 0 = [] := by decide
+  have T5 := (circulator_enumerates_incident_set .voh gluedOps H 5 1 (by decide) (by decide)).1 (by decide)
+  have hs5 : CircClass.voh.spec k 5 = [] := by decide
+  have Toff := (circulator_enumerates_incident_set .voh (gluedOps ++ [.enableBU 0 false])
+    (historyOK_of_B {} _ (by decide)) 0 1 (by decide) (by decide)).2 (by decide)
+  exact ⟨hs, T.2.2.2.2.2 hs, by decide, T5.2.2.2.2.2 hs5, by decide, by decide, by decide, Toff.2⟩
+
+set_option maxRecDepth 1000000 in
+/-- test (a sample, not a proof): on this state, for every class and every centre slot 0..13, live centre and kinds
+    enabled ⇒ the list sorted equals the brute-force list sorted — the instance of the theorem, evaluated -/
+example :
+    let k := run {} gluedOps
+    CircClass.all.all (fun cls => (List.range 14).all (fun x =>
+      !(cls.centre.live k x) || sortL (cls.list k x) == sortL (cls.spec k x))) = true := by decide
+
+set_option maxRecDepth 1000000 in
+/-- the entity iterators on this state: the flagged face 6 / cell 1 and their halffaces are skipped -/
+example :
+    let k := run {} gluedOps
+    enumFrom k.fDel k.nF 0 = [0, 1, 2, 3, 4, 5] ∧ enumFrom k.cDel k.nC 0 = [0] ∧
+    enumFromP (halfLive k.fDel) k.nHF 0 = [0, 1, 2, 3, 4, 5, 6, 7, 8, 9, 10, 11] ∧ k.nHF = 14 := by
+  intro k
+  obtain ⟨⟨_, _, hf, hc, _, hhf⟩, _⟩ := entity_iterators_on_reachable_states gluedOps (historyOK_of_B {} _ (by decide))
+  exact ⟨hf.trans (by decide), hc.trans (by decide), hhf.trans (by decide), by decide⟩
+
+set_option maxRecDepth 1000000 in
+/-- the boundary iterators on this state: every live face is boundary (cell 1 is flagged, so face 0 is boundary too);
+    before the deletion face 0 is interior -/
+example :
+    let k := run {} gluedOps
+    enumFromP (fun f => liveFlag k.fDel f && k.qBoundaryF f) k.nF 0 = [0, 1, 2, 3, 4, 5] ∧
+    (run {} (gluedOps.take 10)).liveFaces.filter (run {} (gluedOps.take 10)).sBoundaryF = [1, 2, 3, 4, 5, 6] := by
+  intro k
+  have := (boundary_iterators_on_reachable_states gluedOps (historyOK_of_B {} _ (by decide))).2.2.2.2.1 (by decide)
+  exact ⟨this.trans (by decide), by decide⟩
+
+set_option maxRecDepth 1000000 in
+/-- TetVertexIter and CellSheetCellIter before the deletion (both cells live): cell 1 is a tetrahedron, its vertex list
+    is the cycle of its first halfface `1` (= face 0 reversed: 0, 2, 1) then the apex 4; across the halffaces at
+    positions 0, 1 of cell 0 (direction 2 or 3) lies cell 1 -/
+example :
+    let k := run {} (gluedOps.take 10)
+    k.getCellVertices 1 = [0, 2, 1, 4] ∧ k.tvIter 1 2 = [0, 2, 1, 4, 0, 2, 1, 4] ∧
+    visit (k.getCellVertices 1) 2 9 (start (k.getCellVertices 1)) = k.tvIter 1 2 ∧
+    k.cellSheetCells 0 2 = [1] ∧ k.sSheetCells 0 2 = [1] ∧ k.cellSheetCells 0 0 = [] := by
+  intro k
+  have hi : GInv k := ginv_reachable _ (historyOK_of_B {} _ (by decide))
+  have T := tet_vertex_circulator_partial k hi (by decide) 1 (by decide) (by decide) 2 (by decide)
+  have hL : k.getCellVertices 1 = [0, 2, 1, 4] := by decide
+  have S := (cell_sheet_circulator_partial k hi 0 2 (by decide) (by decide) 1 (by decide)).1 (by decide)
+  have hS : k.cellSheetCells 0 2 = [1] := by decide
+  refine ⟨hL, by decide, ?_, hS, by rw [← S.1, hS], by decide⟩
+  have := T.2.2.2.2.1
+  rw [T.1] at this
+  exact this
+
+set_option maxRecDepth 1000000 in
+/-- a deferred `delete_vertex(4)` on top: vertex 4 and edges 6, 7, 8 are flagged and still occupy their slots; every
+    circulator around vertex 4 and around edge 6 is invalid from the start, while vertex 1 keeps exactly its live
+    neighbours (`vv`: 0, 2, 3 — not 4) -/
+example :
+    let k := run {} (gluedOps ++ [.deleteVertex 4])
+    k.nV = 6 ∧ k.vDeleted 4 = true ∧ k.eDeleted 6 = true ∧
+    (start (CircClass.vv.list k 4)).valid = false ∧ (start (CircClass.ehf.list k 6)).valid = false ∧
+    sortL (CircClass.vv.list k 1) = [0, 2, 3] := by
+  intro k
+  have H : Global.HistoryOK {} (gluedOps ++ [.deleteVertex 4]) := historyOK_of_B {} _ (by decide)
+  exact ⟨by decide, by decide, by decide,
+    (deleted_centre_immediately_invalid .vv _ H 4 rfl (by decide) (by decide) (by decide)).2,
+    (deleted_centre_immediately_invalid .ehf _ H 6 rfl (by decide) (by decide) (by decide)).2, by decide⟩
+
+/-- a loop edge and two parallel edges at vertex 0 (valid calls: `add_edge` does not reject either) -/
+def loopOps : List Op := [.addNVertices 2, .addEdge 0 0 false, .addEdge 0 1 true, .addEdge 0 1 true]
+
+/-- why `ve` and `vv` are NOT in `CircClass.isSet`: they list one entry per outgoing halfedge — the loop edge 0 twice,
+    the neighbour 1 once per parallel edge (the C++ prints the same: findings/C05-loop-edge-multiplicity.md); the
+    theorem still applies in its multiplicity form, and `voh` stays duplicate-free -/
+example :
+    let k := run {} loopOps
+    Global.HistoryOK {} loopOps ∧ CircClass.ve.list k 0 = [0, 0, 1, 2] ∧ CircClass.vv.list k 0 = [0, 0, 1, 1] ∧
+    (CircClass.ve.list k 0).Perm (CircClass.ve.spec k 0) ∧ CircClass.voh.list k 0 = [0, 1, 2, 4] := by
+  intro k
+  have H : Global.HistoryOK {} loopOps := historyOK_of_B {} _ (by decide)
+  exact ⟨H, by decide, by decide,
+    ((circulator_enumerates_incident_set .ve loopOps H 0 1 (by decide) (by decide)).1 (by decide)).1, by decide⟩
 
 end OVM.Props.C05
